@@ -39,7 +39,7 @@ type regOp struct {
 	out      string                // setdeco: Render output
 }
 
-var poolShapes = []string{"alpha", "Mixed Case", "ünï-cödé", "dotted.name", "UPPER", "z"}
+var poolShapes = []string{"alpha", "Mixed Case", "ünï-cödé", "alpha.beta", "UPPER", "z"}
 
 // execCounter makes the names of every execution in this process fresh: the
 // registry has no way to forget a name, and an execution must not see what an
@@ -51,7 +51,11 @@ func NewRegRun(seed uint64, npool int) *RegRun {
 	execCounter++
 	rr := &RegRun{prefix: fmt.Sprintf("r%x-%d-", seed&0xffffff, execCounter), Probes: map[string]int{}}
 	for i := 0; i < npool && i < len(poolShapes); i++ {
-		rr.pool = append(rr.pool, rr.prefix+poolShapes[i])
+		name := rr.prefix + poolShapes[i]
+		if i == 1 {
+			name = "zz " + poolShapes[i] + " " + rr.prefix // sorts after every built-in name
+		}
+		rr.pool = append(rr.pool, name)
 	}
 	// never registered — including names that only differ from a registered one
 	// by case or surrounding white space: the registry is an exact-match map
@@ -129,6 +133,11 @@ func (rr *RegRun) DoReg(task int, st *Step, log *EventLog) *Violation {
 			return nil
 		}
 		op.name = rr.pool[pick(len(rr.pool), st.A)]
+		if st.C == 1 {
+			// the application overwrites a built-in name (documented as allowed)
+			op.name = decoration.D_UTF8_HEAVY
+			rr.Probes["builtin_overwritten"]++
+		}
 		op.variant = pick(20, st.B)
 		op.inv = rr.tick()
 		rr.hist = append(rr.hist, op)
@@ -147,6 +156,26 @@ func (rr *RegRun) DoReg(task int, st *Step, log *EventLog) *Violation {
 		op.ret = rr.tick()
 	case "setdeco":
 		op.name = rr.nameFor(st.A)
+		if via := pick(4, st.B); via >= 2 && !strings.Contains(op.name, ".") {
+			// (a dotted name is left to the direct route: through auto, "X.Y" with
+			// only X registered legitimately selects X)
+			// through the auto package, which looks the name up itself and swallows
+			// the error: the refusal to render is then the only report
+			style := op.name
+			if via == 3 {
+				style = "texttable." + op.name
+			}
+			op.inv = rr.tick()
+			rr.hist = append(rr.hist, op)
+			rt := auto.Wrap(smallTable(), style)
+			op.ret = rr.tick()
+			out, rerr := rt.Render()
+			op.rerr = rerr != nil
+			op.err = op.rerr
+			op.out = out
+			rr.Probes["setdeco_through_auto"]++
+			break
+		}
 		tt := texttable.Wrap(smallTable())
 		op.inv = rr.tick()
 		rr.hist = append(rr.hist, op)
